@@ -1,5 +1,6 @@
 import GnoVerif.Base.Kit
 import GnoVerif.Gen.C05
+import GnoVerif.Spec.C05
 /-! Driver for C05: runs the GENERATED model of gnovm's softfloat package on op lines.
 
 Protocol (see harness/cmd/c05/main.go): `<GoFunctionName> <hex> …` — every argument
@@ -7,12 +8,61 @@ is the bit pattern of the Go argument as fixed-width lowercase hex (16 digits fo
 64-bit types and `int`, 8 digits for 32-bit types).  Results: hex bit patterns,
 `true`/`false`, tuples joined by `:`; a Go run-time panic is `panic:divzero`.
 
+Besides printing the model's result, the driver evaluates the REFERENCE semantics of
+Spec/C05.lean (`rnd (val a ∘ val b)`, exact rational arithmetic, round-to-nearest-even)
+for every arithmetic / conversion line whose operands are finite, and prints
+`specdiff:<model>:<reference>` instead of the result if the two differ — so the
+correspondence run also ties the rational-arithmetic statement `ieee754_statement`
+to the model and, through the model, to the real code.
+
 `sweep <fn> <start> <count> <stride>` and `exh32 <fn> <shard> <nshards> <stride>`
 print the FNV-style checksum of the unary function `fn` over the arguments
 `start + i*stride` (32-bit wrap-around), so that millions of evaluations cost one line.
 -/
 namespace GnoVerif.Drive.C05
-open GnoVerif GnoVerif.Kit GnoVerif.Gen.C05
+open GnoVerif GnoVerif.Kit GnoVerif.Gen.C05 GnoVerif.C05
+
+/-! ### reference semantics (Spec/C05.lean) next to the model -/
+
+def fin64 (f : BitVec 64) : Bool := decide (isFinite64 f)
+def fin32 (f : BitVec 32) : Bool := decide (isFinite32 f)
+def zero64 (f : BitVec 64) : Bool := decide (isZero64 f)
+def zero32 (f : BitVec 32) : Bool := decide (isZero32 f)
+
+/-- `none` = the reference semantics has nothing to say for these operands -/
+def refArith64 (op : String) (a b : BitVec 64) : Option (BitVec 64) :=
+  if !(fin64 a && fin64 b) then none else
+  match op with
+  | "add" | "sub" =>
+    let x := if op == "add" then val64 a + val64 b else val64 a - val64 b
+    if x != 0 then some (rnd64 x) else if zero64 a && zero64 b then none else some 0#64
+  | "mul" => if zero64 a || zero64 b then none else some (rnd64 (val64 a * val64 b))
+  | "div" => if zero64 a || zero64 b then none else some (rnd64 (val64 a / val64 b))
+  | _ => none
+
+def refArith32 (op : String) (a b : BitVec 32) : Option (BitVec 32) :=
+  if !(fin32 a && fin32 b) then none else
+  match op with
+  | "add" | "sub" =>
+    let x := if op == "add" then val32 a + val32 b else val32 a - val32 b
+    if x != 0 then some (rnd32 x) else if zero32 a && zero32 b then none else some 0#32
+  | "mul" => if zero32 a || zero32 b then none else some (rnd32 (val32 a * val32 b))
+  | "div" => if zero32 a || zero32 b then none else some (rnd32 (val32 a / val32 b))
+  | _ => none
+
+def withRef {w : Nat} (h : BitVec w → String) (model : BitVec w) (ref : Option (BitVec w)) : String :=
+  match ref with
+  | some r => if r == model then h model else s!"specdiff:{h model}:{h r}"
+  | none => h model
+
+/-- float → integer reference: truncation, when it fits `lo ≤ t < hi` -/
+def refTrunc (w : Nat) (x : Rat) (lo hi : Int) : Option (BitVec w) :=
+  let t := truncRat x
+  if lo ≤ t && t < hi then some (BitVec.ofInt w t) else none
+
+def p63 : Int := 9223372036854775808
+def p31 : Int := 2147483648
+def p64 : Int := 18446744073709551616
 
 def parseHex (s : String) : Option Nat :=
   if s.isEmpty then none else
@@ -85,10 +135,10 @@ def vmOps : List String :=
 
 def run (fn : String) (args : List String) : String :=
   match fn with
-  | "Fadd64" => bin64 (fun a b => h64 (Fadd64 a b)) args
-  | "Fsub64" => bin64 (fun a b => h64 (Fsub64 a b)) args
-  | "Fmul64" => bin64 (fun a b => h64 (Fmul64 a b)) args
-  | "Fdiv64" => bin64 (fun a b => showE h64 (Fdiv64 a b)) args
+  | "Fadd64" => bin64 (fun a b => withRef h64 (Fadd64 a b) (refArith64 "add" a b)) args
+  | "Fsub64" => bin64 (fun a b => withRef h64 (Fsub64 a b) (refArith64 "sub" a b)) args
+  | "Fmul64" => bin64 (fun a b => withRef h64 (Fmul64 a b) (refArith64 "mul" a b)) args
+  | "Fdiv64" => bin64 (fun a b => showE (fun r => withRef h64 r (refArith64 "div" a b)) (Fdiv64 a b)) args
   | "Fneg64" => un64 (fun a => h64 (Fneg64 a)) args
   | "Feq64" => bin64 (fun a b => boolStr (Feq64 a b)) args
   | "Fgt64" => bin64 (fun a b => boolStr (Fgt64 a b)) args
@@ -96,33 +146,33 @@ def run (fn : String) (args : List String) : String :=
   | "Flt64" => bin64 (fun a b => boolStr (Flt64 a b)) args
   | "Fle64" => bin64 (fun a b => boolStr (Fle64 a b)) args
   | "Fcmp64" => bin64 (fun a b => let r := Fcmp64 a b; s!"{h32 r.1}:{boolStr r.2}") args
-  | "Fadd32" => bin32 (fun a b => h32 (Fadd32 a b)) args
-  | "Fsub32" => bin32 (fun a b => h32 (Fsub32 a b)) args
-  | "Fmul32" => bin32 (fun a b => h32 (Fmul32 a b)) args
-  | "Fdiv32" => bin32 (fun a b => showE h32 (Fdiv32 a b)) args
+  | "Fadd32" => bin32 (fun a b => withRef h32 (Fadd32 a b) (refArith32 "add" a b)) args
+  | "Fsub32" => bin32 (fun a b => withRef h32 (Fsub32 a b) (refArith32 "sub" a b)) args
+  | "Fmul32" => bin32 (fun a b => withRef h32 (Fmul32 a b) (refArith32 "mul" a b)) args
+  | "Fdiv32" => bin32 (fun a b => showE (fun r => withRef h32 r (refArith32 "div" a b)) (Fdiv32 a b)) args
   | "Fneg32" => un32 (fun a => h32 (Fneg32 a)) args
   | "Feq32" => bin32 (fun a b => boolStr (Feq32 a b)) args
   | "Fgt32" => bin32 (fun a b => boolStr (Fgt32 a b)) args
   | "Fge32" => bin32 (fun a b => boolStr (Fge32 a b)) args
   | "Flt32" => bin32 (fun a b => boolStr (Flt32 a b)) args
   | "Fle32" => bin32 (fun a b => boolStr (Fle32 a b)) args
-  | "Fintto64" => un64 (fun a => h64 (Fintto64 a)) args
-  | "Fintto32" => un64 (fun a => h32 (Fintto32 a)) args
-  | "F32to64" => un32 (fun a => h64 (F32to64 a)) args
-  | "F64to32" => un64 (fun a => h32 (F64to32 a)) args
-  | "F32toint32" => un32 (fun a => h32 (F32toint32 a)) args
-  | "F32toint64" => un32 (fun a => h64 (F32toint64 a)) args
-  | "F32touint64" => un32 (fun a => h64 (F32touint64 a)) args
+  | "Fintto64" => un64 (fun a => withRef h64 (Fintto64 a) (if a == 0#64 then none else some (rnd64 (a.toInt : Rat)))) args
+  | "Fintto32" => un64 (fun a => withRef h32 (Fintto32 a) (if a == 0#64 then none else some (rnd32 (a.toInt : Rat)))) args
+  | "F32to64" => un32 (fun a => withRef h64 (F32to64 a) (if fin32 a && !zero32 a then some (rnd64 (val32 a)) else none)) args
+  | "F64to32" => un64 (fun a => withRef h32 (F64to32 a) (if fin64 a && !zero64 a then some (rnd32 (val64 a)) else none)) args
+  | "F32toint32" => un32 (fun a => withRef h32 (F32toint32 a) (if fin32 a then refTrunc 32 (val32 a) (-p31) p31 else none)) args
+  | "F32toint64" => un32 (fun a => withRef h64 (F32toint64 a) (if fin32 a then refTrunc 64 (val32 a) (-p63) p63 else none)) args
+  | "F32touint64" => un32 (fun a => withRef h64 (F32touint64 a) (if fin32 a then refTrunc 64 (val32 a) 0 p64 else none)) args
   | "F64toint" => un64 (fun a => let r := F64toint a; s!"{h64 r.1}:{boolStr r.2}") args
-  | "F64toint32" => un64 (fun a => h32 (F64toint32 a)) args
-  | "F64toint64" => un64 (fun a => h64 (F64toint64 a)) args
-  | "F64touint64" => un64 (fun a => h64 (F64touint64 a)) args
-  | "Fint32to32" => un32 (fun a => h32 (Fint32to32 a)) args
-  | "Fint32to64" => un32 (fun a => h64 (Fint32to64 a)) args
-  | "Fint64to32" => un64 (fun a => h32 (Fint64to32 a)) args
-  | "Fint64to64" => un64 (fun a => h64 (Fint64to64 a)) args
-  | "Fuint64to32" => un64 (fun a => h32 (Fuint64to32 a)) args
-  | "Fuint64to64" => un64 (fun a => h64 (Fuint64to64 a)) args
+  | "F64toint32" => un64 (fun a => withRef h32 (F64toint32 a) (if fin64 a then refTrunc 32 (val64 a) (-p31) p31 else none)) args
+  | "F64toint64" => un64 (fun a => withRef h64 (F64toint64 a) (if fin64 a then refTrunc 64 (val64 a) (-p63) p63 else none)) args
+  | "F64touint64" => un64 (fun a => withRef h64 (F64touint64 a) (if fin64 a then refTrunc 64 (val64 a) 0 p64 else none)) args
+  | "Fint32to32" => un32 (fun a => withRef h32 (Fint32to32 a) (if a == 0#32 then none else some (rnd32 (a.toInt : Rat)))) args
+  | "Fint32to64" => un32 (fun a => withRef h64 (Fint32to64 a) (if a == 0#32 then none else some (rnd64 (a.toInt : Rat)))) args
+  | "Fint64to32" => un64 (fun a => withRef h32 (Fint64to32 a) (if a == 0#64 then none else some (rnd32 (a.toInt : Rat)))) args
+  | "Fint64to64" => un64 (fun a => withRef h64 (Fint64to64 a) (if a == 0#64 then none else some (rnd64 (a.toInt : Rat)))) args
+  | "Fuint64to32" => un64 (fun a => withRef h32 (Fuint64to32 a) (if a == 0#64 then none else some (rnd32 (a.toNat : Rat)))) args
+  | "Fuint64to64" => un64 (fun a => withRef h64 (Fuint64to64 a) (if a == 0#64 then none else some (rnd64 (a.toNat : Rat)))) args
   | "Funpack64" => un64 (fun a => showUnpack64 (Funpack64 a)) args
   | "Funpack32" => un32 (fun a => showUnpack32 (Funpack32 a)) args
   -- unexported helpers, reached on the Go side through the committed shim in sfcopy
